@@ -463,4 +463,207 @@ theorem module_diff_edits_equal_comments {β : Type} (printedNew : Text) (locsI 
     (rndI : α → Text) (rndT : β → Text) (sI : Script α) (sT : Script β) :
     moduleDiffEdits true printedNew locsI locsT rndI rndT sI sT = moduleEdits locsI locsT rndI rndT sI sT := rfl
 
+/-! ## The whole edit list of `compute_module_diff`: import edits followed by toplevel edits -/
+
+/-- Every range of the script lies between the boundary in front of the first old item and the
+boundary behind the last one, and is not reversed (also for an empty old list). -/
+theorem edit_offsets_in_bnd (old new : List α) (tr : Trace) (hv : ValidTrace old new tr)
+    (st en : Nat → Nat) (hl : Lay st en) :
+    ∀ e ∈ computeWith old new tr,
+      bnd st en 0 ≤ (rangeOf st en e).1 ∧ (rangeOf st en e).1 ≤ (rangeOf st en e).2 ∧
+        (rangeOf st en e).2 ≤ bnd st en old.length := by
+  intro e he
+  by_cases hn : 0 < old.length
+  · have := edit_ranges_inside old new tr hv st en hl.mono hl.le hn e he
+    have hb : bnd st en old.length = en (old.length - 1) := by
+      unfold bnd
+      have : ¬ old.length = 0 := by omega
+      simp [this]
+    have h0 : bnd st en 0 = st 0 := by simp [bnd]
+    rw [hb, h0]
+    exact this
+  · have hz : old.length = 0 := by omega
+    obtain ⟨h1, h2, h3⟩ := script_positions_in_bounds old new tr hv e he
+    obtain ⟨p, c⟩ := e
+    simp only [hz, Int.ofNat_eq_natCast, Int.natCast_zero] at h2
+    cases c with
+    | insert it ld =>
+      have hp : p < 0 := h2
+      simp [rangeOf, hp, bnd, hz]
+    | delete x => have := h3 (by intro _ _ h; cases h); simp only at this h2; omega
+    | replace x y => have := h3 (by intro _ _ h; cases h); simp only at this h2; omega
+
+/-- **The produced edit list satisfies the LSP requirement**: in the order `list_differ` emits them the
+text edits have non-reversed ranges and each ends before (or where) the next one starts. -/
+theorem edits_ordered (old new : List α) (tr : Trace) (hv : ValidTrace old new tr)
+    (st en : Nat → Nat) (hl : Lay st en) (rnd : α → Text) :
+    OrderedEdits (toOffEdits st en rnd (computeWith old new tr)) := by
+  refine ⟨?_, ?_⟩
+  · intro e he
+    simp only [toOffEdits, List.mem_map] at he
+    obtain ⟨ch, hch, rfl⟩ := he
+    exact (edit_offsets_in_bnd old new tr hv st en hl ch hch).2.1
+  · simp only [toOffEdits, List.pairwise_map]
+    exact edit_ranges_ordered old new tr hv st en hl.mono hl.le
+
+/-- **… also across the two lists**: the import edits followed by the toplevel edits (the order in which
+`compute_module_diff` sends them) are ordered and non-overlapping, provided the imports precede the
+toplevels in the document (`hsep`). -/
+theorem module_edits_ordered {β : Type} [DecidableEq β]
+    (oldI newI : List α) (trI : Trace) (hvI : ValidTrace oldI newI trI)
+    (oldT newT : List β) (trT : Trace) (hvT : ValidTrace oldT newT trT)
+    (stI enI stT enT : Nat → Nat) (hlI : Lay stI enI) (hlT : Lay stT enT)
+    (hsep : bnd stI enI oldI.length ≤ bnd stT enT 0) (rndI : α → Text) (rndT : β → Text) :
+    OrderedEdits (toOffEdits stI enI rndI (computeWith oldI newI trI) ++
+      toOffEdits stT enT rndT (computeWith oldT newT trT)) := by
+  obtain ⟨a1, a2⟩ := edits_ordered oldI newI trI hvI stI enI hlI rndI
+  obtain ⟨b1, b2⟩ := edits_ordered oldT newT trT hvT stT enT hlT rndT
+  refine ⟨?_, ?_⟩
+  · intro e he
+    simp only [List.mem_append] at he
+    rcases he with he | he
+    · exact a1 e he
+    · exact b1 e he
+  · refine List.pairwise_append.mpr ⟨a2, b2, ?_⟩
+    intro x hx y hy
+    simp only [toOffEdits, List.mem_map] at hx hy
+    obtain ⟨cx, hcx, rfl⟩ := hx
+    obtain ⟨cy, hcy, rfl⟩ := hy
+    have h1 := (edit_offsets_in_bnd oldI newI trI hvI stI enI hlI cx hcx).2.2
+    have h2 := (edit_offsets_in_bnd oldT newT trT hvT stT enT hlT cy hcy).1
+    simp only
+    omega
+
+/-- **Composition**: applying the whole edit list of `compute_module_diff` — import edits, then toplevel
+edits, in that order — to the old text gives: the document up to the first import, the import part
+(`expChunksBody`: gaps and kept imports verbatim, new imports rendered), the text between the last old
+import and the first old toplevel verbatim, and the toplevel part including the tail of the document;
+the import items read in order are the new import list and the toplevel items the new toplevel list —
+i.e. the text of the new module. -/
+theorem module_edits_text {β : Type} [DecidableEq β] (doc : Text)
+    (oldI newI : List α) (trI : Trace) (hvI : ValidTrace oldI newI trI)
+    (oldT newT : List β) (trT : Trace) (hvT : ValidTrace oldT newT trT)
+    (stI enI stT enT : Nat → Nat) (hlI : Lay stI enI) (hlT : Lay stT enT)
+    (hsep : bnd stI enI oldI.length ≤ bnd stT enT 0) (rndI : α → Text) (rndT : β → Text) :
+    applyTE 0 doc (toOffEdits stI enI rndI (computeWith oldI newI trI) ++
+        toOffEdits stT enT rndT (computeWith oldT newT trT)) =
+      dslice doc 0 (bnd stI enI 0) ++ flatChunks (expChunksBody doc stI enI rndI oldI newI 0 0 trI) ++
+        dslice doc (bnd stI enI oldI.length) (bnd stT enT 0) ++
+        flatChunks (expChunks doc stT enT rndT oldT newT 0 0 trT) ∧
+      (expChunksBody doc stI enI rndI oldI newI 0 0 trI).filterMap (·.1) = newI ∧
+      (expChunks doc stT enT rndT oldT newT 0 0 trT).filterMap (·.1) = newT := by
+  have hI := text_lift doc stI enI hlI rndI oldI newI trI hvI
+  have hT := text_lift doc stT enT hlT rndT oldT newT trT hvT
+  have hsplit := expChunks_split doc stI enI rndI oldI newI trI 0 0
+  refine ⟨?_, ?_, hT.2⟩
+  · -- run the import edits
+    obtain ⟨o1, o2⟩ := edits_ordered oldI newI trI hvI stI enI hlI rndI
+    have hwf := runTE_wf doc (bnd stI enI oldI.length) (toOffEdits stI enI rndI (computeWith oldI newI trI)) 0
+      (Nat.zero_le _) (by
+        intro e he
+        simp only [toOffEdits, List.mem_map] at he
+        obtain ⟨ch, hch, rfl⟩ := he
+        have := edit_offsets_in_bnd oldI newI trI hvI stI enI hlI ch hch
+        exact ⟨Nat.zero_le _, this.2.1, this.2.2⟩) o2
+    simp only [List.drop_zero] at hwf
+    obtain ⟨hrest, _, hpos⟩ := hwf
+    rw [applyTE_append, hrest]
+    -- the toplevel edits from the cursor the import edits left
+    unfold computeWith
+    rw [sorted_eq_segs oldT newT trT hvT]
+    have hT' := ttrace_apply doc stT enT hlT rndT oldT newT trT 0 0
+      (runTE 0 doc (toOffEdits stI enI rndI ((presort oldI newI trI).mergeSort cle |> fuse))).2.1
+      hvT (Nat.zero_le _) (Nat.zero_le _) (by
+        have : (fuse ((presort oldI newI trI).mergeSort cle)) = computeWith oldI newI trI := rfl
+        rw [this]; omega)
+    have hcw : (fuse ((presort oldI newI trI).mergeSort cle)) = computeWith oldI newI trI := rfl
+    rw [hcw] at hT' ⊢
+    simp only [Int.ofNat_eq_natCast, Int.natCast_zero, Int.zero_sub] at hT'
+    rw [hT']
+    -- what the import edits produced
+    have hrun := applyTE_run (toOffEdits stI enI rndI (computeWith oldI newI trI)) 0 doc
+    rw [hI.1, hsplit, flat_append, hrest] at hrun
+    have htail : flatChunks [((none : Option α), doc.drop (bnd stI enI oldI.length))] =
+        doc.drop (bnd stI enI oldI.length) := by simp [flatChunks]
+    rw [htail, ← dslice_drop doc _ _ hpos] at hrun
+    have hcancel : dslice doc 0 (bnd stI enI 0) ++ flatChunks (expChunksBody doc stI enI rndI oldI newI 0 0 trI) =
+        (runTE 0 doc (toOffEdits stI enI rndI (computeWith oldI newI trI))).1 ++
+          dslice doc (runTE 0 doc (toOffEdits stI enI rndI (computeWith oldI newI trI))).2.1 (bnd stI enI oldI.length) := by
+      have := hrun
+      simp only [← List.append_assoc] at this
+      exact List.append_cancel_right this
+    rw [← dslice_append doc _ (bnd stI enI oldI.length) (bnd stT enT 0) hpos hsep]
+    simp only [← List.append_assoc]
+    rw [← hcancel]
+  · have := hI.2
+    rw [hsplit] at this
+    simpa using this
+
+/-- **The same for a document of lines and the `(line, col)` edits of `moduleEdits`**, fuel-free, when the
+old module has at least one toplevel: for all import and toplevel lists both diffs return, the edit
+list is ordered as LSP requires, and applying it yields the text of the new module (`module_edits_text`). -/
+theorem module_diff_text {β : Type} [DecidableEq β] (doc : Doc) (locsI locsT : List (Pos × Pos))
+    (hT : locsT ≠ []) (rndI : α → Text) (rndT : β → Text)
+    (oldI newI : List α) (oldT newT : List β)
+    (hlI : Lay (fun i => off doc (locStart locsI i)) (fun i => off doc (locStop locsI i)))
+    (hlT : Lay (fun i => off doc (locStart locsT i)) (fun i => off doc (locStop locsT i)))
+    (hsep : bnd (fun i => off doc (locStart locsI i)) (fun i => off doc (locStop locsI i)) oldI.length ≤
+      off doc (locStart locsT 0)) :
+    ∃ sI sT trI trT, diff oldI newI = some sI ∧ diff oldT newT = some sT ∧
+      OrderedEdits ((moduleEdits locsI locsT rndI rndT sI sT).map
+        (fun ed => (off doc ed.start, off doc ed.stop, ed.text))) ∧
+      applyEdits doc (moduleEdits locsI locsT rndI rndT sI sT) =
+        dslice (flatten doc) 0 (off doc (locStart locsI 0)) ++
+          flatChunks (expChunksBody (flatten doc) (fun i => off doc (locStart locsI i))
+            (fun i => off doc (locStop locsI i)) rndI oldI newI 0 0 trI) ++
+          dslice (flatten doc)
+            (bnd (fun i => off doc (locStart locsI i)) (fun i => off doc (locStop locsI i)) oldI.length)
+            (off doc (locStart locsT 0)) ++
+          flatChunks (expChunks (flatten doc) (fun i => off doc (locStart locsT i))
+            (fun i => off doc (locStop locsT i)) rndT oldT newT 0 0 trT) ∧
+      (expChunksBody (flatten doc) (fun i => off doc (locStart locsI i))
+        (fun i => off doc (locStop locsI i)) rndI oldI newI 0 0 trI).filterMap (·.1) = newI ∧
+      (expChunks (flatten doc) (fun i => off doc (locStart locsT i))
+        (fun i => off doc (locStop locsT i)) rndT oldT newT 0 0 trT).filterMap (·.1) = newT := by
+  obtain ⟨trI, htrI⟩ := longestTrace_total oldI newI
+  obtain ⟨trT, htrT⟩ := longestTrace_total oldT newT
+  have hvI := trace_valid _ oldI newI trI htrI
+  have hvT := trace_valid _ oldT newT trT htrT
+  have hsep' : bnd (fun i => off doc (locStart locsI i)) (fun i => off doc (locStop locsI i)) oldI.length ≤
+      bnd (fun i => off doc (locStart locsT i)) (fun i => off doc (locStop locsT i)) 0 := by
+    simpa [bnd] using hsep
+  have hmap : (moduleEdits locsI locsT rndI rndT (computeWith oldI newI trI) (computeWith oldT newT trT)).map
+      (fun ed => (off doc ed.start, off doc ed.stop, ed.text)) =
+      toOffEdits (fun i => off doc (locStart locsI i)) (fun i => off doc (locStop locsI i)) rndI (computeWith oldI newI trI) ++
+      toOffEdits (fun i => off doc (locStart locsT i)) (fun i => off doc (locStop locsT i)) rndT (computeWith oldT newT trT) := by
+    simp only [moduleEdits, List.map_append, importEdits_off, toplevel_edits_eq locsI locsT hT]
+  refine ⟨computeWith oldI newI trI, computeWith oldT newT trT, trI, trT,
+    by simp [diff, compute, htrI], by simp [diff, compute, htrT], ?_, ?_⟩
+  · rw [hmap]
+    exact module_edits_ordered oldI newI trI hvI oldT newT trT hvT _ _ _ _ hlI hlT hsep' rndI rndT
+  · have := module_edits_text (flatten doc) oldI newI trI hvI oldT newT trT hvT _ _ _ _ hlI hlT hsep' rndI rndT
+    unfold applyEdits
+    rw [hmap]
+    simpa [bnd] using this
+
+/-- **The insertion-location rule** (`wrapped_list_diff`, ast_differ.rs:327-338): an insertion behind old
+element `p` is the *zero-width* range at that element's end position — both ends are the element's end
+`(line, column)`; an insertion before everything is the zero-width range at the first element's start.
+`text_lift` needs exactly this: the chunk sequence keeps the whole of every untouched old element,
+which a range starting on an earlier line of a multi-line element would cut. -/
+theorem insert_range_is_element_end (locs : List (Pos × Pos)) (p : Int)
+    (items : List α) (ld : Bool) :
+    (0 ≤ p → rangeOfPos locs (p, Change.insert items ld) = (locStop locs p.toNat, locStop locs p.toNat)) ∧
+    (p < 0 → rangeOfPos locs (p, Change.insert items ld) = (locStart locs 0, locStart locs 0)) := by
+  constructor
+  · intro h; have : ¬ p < 0 := by omega
+    simp [rangeOfPos, this]
+  · intro h; simp [rangeOfPos, h]
+
+/-- Why line *and* column: for a two-line element `ab⏎cd` at `(0,0)–(1,2)`, inserting `X` behind it at the
+rule's range `(1,2)–(1,2)` keeps the element; a range that only moved the column, `(0,2)–(1,2)`, deletes
+its second line. -/
+example : applyEdits [[97, 98], [99, 100]] [⟨(1, 2), (1, 2), [88]⟩] = [97, 98, 10, 99, 100, 88] := by decide
+example : applyEdits [[97, 98], [99, 100]] [⟨(0, 2), (1, 2), [88]⟩] = [97, 98, 88] := by decide
+
 end SamVerif.Differ
